@@ -115,6 +115,10 @@ class SimLock:
     def acquire(self, blocking=True, timeout=-1):
         me = CURRENT["task"] if self.scheduler is None else self.scheduler.current_task()
         while self.owner is not None:
+            if not blocking:
+                self.contended += 1
+                self.log.append(("try-failed", me))
+                return False
             if self.owner == me:
                 self.errors.append(f"re-acquire of {self.name} by its owner {me}")
                 raise RuntimeError("SimLock: re-acquire by owner (would deadlock)")
